@@ -159,4 +159,15 @@ PROPS = {
             "thorough": [dict(test="TestC10ValidatorAPI", checks=12000, shards=10, timeout=3000), dict(test="TestC10PeerPath", checks=20000, shards=6, timeout=3000)],
         },
     ),
+    "C01": dict(
+        kind="ext", pkg="./c01", level="exploration", engine="memnet",
+        technique="property-based whole-cluster simulation (rapid + synctest): real node stacks wired by core.Wire over an in-memory network, generated schedules / crashes / equivocating partial signatures; history invariant over everything handed to the broadcaster and the aggregate store, verified with an independent signing table",
+        level_text="n production node stacks (consensus component, dutydb, validatorapi, parsigdb, parsigex, sigagg, aggsigdb, deadliners) on virtual time; the harness owns every frame and plays the validator clients. "
+                   "Every object any node hands to Broadcaster.Broadcast or AggSigDB.Store must verify under the group key for the spec signing root of its own content, and all objects of one (duty, validator) must share one signing root.",
+        level_note="Scheduler and fetcher are stubs, Byzantine behaviour is partial-signature only (consensus adversaries: C02), proposer duty not exercised; lock-level races are not controlled; signing roots come from specsign.",
+        runs={
+            "quick": [dict(test="TestC01Cluster", checks=60, shards=4, shrinktime="15s")],
+            "thorough": [dict(test="TestC01Cluster", checks=1500, shards=16, timeout=3400, env={"VERIF_MAXEV": 400})],
+        },
+    ),
 }
